@@ -19,9 +19,9 @@ ID = "C12"
 LEVEL = "fault_enumeration"
 RULE = (
     "case = (establishment outcome: endpoint announced as event / bare data with /messages/ or /mcp / query-only / absolute URL, HTTP 401/404/500, ConnectError, 200 with empty stream, "
-    "200 that only sends comments forever, announcement after delay d relative to the timeout) x (per-request mode: 200 body, 202 then event after delta, event then 202 after delta, 202 and silence, "
+    "200 that only sends comments forever, announcement after delay d relative to the timeout) x (per-request mode: 200 body, 202 then event after delta, event then 202 after delta (the event carrying a result or an error), 202 and silence, "
     "4xx/5xx with JSON or text body, POST raises; str and int ids) x (server-initiated notifications/requests interleaved on the event stream) x (every event's bytes re-chunked at generated offsets incl. inside "
-    "UTF-8 characters and CRLF) x (exit path: normal, exception in body, outer cancellation before the first request / with a request in flight / after the response), all on a virtual clock over httpx.MockTransport; "
+    "UTF-8 characters and CRLF) x (exit path: normal or exception in body after the traffic or at a generated instant mid-request, outer cancellation before the first request / with a request in flight / after the response, plain cancellation of the owning task), all on a virtual clock over httpx.MockTransport; "
     "oracle: entering raises within timeout+eps or yields a connection on which a probe request gets a terminal message; exactly one response per request id (type-strict id); server messages once and in order; "
     "after exit both HTTP clients are closed, the event-stream generator is closed and no task created by the case is pending; non-trivial = establishment other than the plain endpoint event, or |delta|<=20 ms race, "
     "or a cut inside a character/CRLF, or a non-normal exit; distinct = distinct case"
@@ -39,7 +39,7 @@ META = {
 
 BASE = "http://test.invalid"
 EST_KINDS = ["endpoint-event", "bare-messages", "bare-mcp", "query-only", "absolute-url", "status-401", "status-404", "status-500", "connect-error", "empty-stream", "comments-forever", "endpoint-crlf"]
-MODES = ["200-body", "202-then-event", "event-then-202", "202-silence", "status-400-json", "status-500-text", "post-raises", "200-body-error"]
+MODES = ["200-body", "202-then-event", "event-then-202", "202-silence", "status-400-json", "status-500-text", "post-raises", "200-body-error", "202-then-error-event", "error-event-then-202"]
 
 
 def endpoint_bytes(kind: str) -> Tuple[bytes, str]:
@@ -148,13 +148,16 @@ def check(case: Dict[str, Any]) -> Outcome:
             return httpx.Response(200, json=resp)
         if mode == "200-body-error":
             return httpx.Response(200, json={"jsonrpc": "2.0", "id": rid, "error": {"code": -32001, "message": "srv"}})
-        if mode == "202-then-event":
+        if mode in ("202-then-error-event", "error-event-then-202"):
+            # the server's answer on the event stream is a JSON-RPC error
+            resp = {"jsonrpc": "2.0", "id": rid, "error": {"code": -32001, "message": "srv é"}}
+        if mode in ("202-then-event", "202-then-error-event"):
             async def later2():
                 await asyncio.sleep(delta)
                 feed(event_bytes(resp))
             feed_tasks.append(asyncio.ensure_future(later2()))
             return httpx.Response(202)
-        if mode == "event-then-202":
+        if mode in ("event-then-202", "error-event-then-202"):
             feed(event_bytes(resp))
             await asyncio.sleep(delta)
             return httpx.Response(202)
@@ -216,7 +219,8 @@ def check(case: Dict[str, Any]) -> Outcome:
                                 async def requests():
                                     for rq in reqs:
                                         await w.send(parse_message({"jsonrpc": "2.0", "id": rq["id"], "method": "tools/list", "params": {}}))
-                                        wait = T + 0.5 if rq["mode"] == "202-silence" else max(0.3, rq.get("delta", 0) + 0.3)
+                                        # (error answers: stay long enough to see a second, synthesised terminal message if one were to follow)
+                                        wait = T + 0.5 if rq["mode"] in ("202-silence", "202-then-error-event", "error-event-then-202") else max(0.3, rq.get("delta", 0) + 0.3)
                                         await asyncio.sleep(wait)
 
                                 if exit_at is not None and exit_path in ("normal", "exception"):
@@ -305,7 +309,7 @@ def check(case: Dict[str, Any]) -> Outcome:
         return out
 
     # ------------------------------------------------------------------ classes
-    race = any(r["mode"] in ("202-then-event", "event-then-202") and r.get("delta", 0) <= 0.02 for r in reqs)
+    race = any(r["mode"] in ("202-then-event", "event-then-202", "202-then-error-event", "error-event-then-202") and r.get("delta", 0) <= 0.02 for r in reqs)
     out.nontrivial = est["kind"] != "endpoint-event" or race or bool(cuts) or exit_path != "normal"
     out.classes = (f"est:{est['kind']}", f"exit:{exit_path}" + (":mid-request" if state.get("early_exit") and reqs else ""), "race" if race else "no-race", "chunked" if cuts else "unchunked") + tuple(sorted({"mode:" + r["mode"] for r in reqs}))
 
@@ -349,6 +353,8 @@ def check(case: Dict[str, Any]) -> Outcome:
                 out.fail(f"terminal-message-invalid:{label}", json.dumps(mine[0])[:300])
             elif rq["mode"] in ("200-body", "202-then-event", "event-then-202") and classify(mine[0])[0] != "result":
                 out.fail(f"server-response-replaced-by-error:{label}", json.dumps(mine[0])[:300])
+            elif rq["mode"] in ("202-then-error-event", "error-event-then-202") and not (classify(mine[0])[0] == "error" and mine[0]["error"].get("code") == -32001):
+                out.fail(f"server-error-answer-replaced:{label}", json.dumps(mine[0])[:300])
         # server-initiated messages once and in order
         want = [sm["wire"] for sm in srv]
         got = [m for m in msgs if isinstance(m, dict) and "method" in m]
